@@ -15,16 +15,26 @@ fi
 GEN=$ROOT/.gen/$ID-$TIER
 mkdir -p $GEN
 OVFLAGS=""
+[ "$ID" = "C20" ] && OVFLAGS="-yieldall packages/cache"   # scheduling points at every function of the cache package
 [ "$ID" = "C18" ] && OVFLAGS="-yields"   # scheduling points at every library function that touches a package-level variable
 $ROOT/.bin/ovgen -repo /repo -out $GEN $OVFLAGS || { echo "ovgen failed" >&2; exit 2; }
 # 2. checker, against /repo's working tree + overlay (build tag verif)
 BIN=$ROOT/.bin/vcheck-$ID-$TIER
 go build -tags verif -overlay $GEN/overlay.json -o $BIN ./cmd/vcheck || { echo "build of vcheck against /repo failed" >&2; exit 2; }
-if [ "$ID" = "C18" ]; then
+if [ "$ID" = "C20" ]; then
+  # the stub `go` executable the cache's listing command resolves to (first on PATH inside the checker)
+  mkdir -p $ROOT/.bin/gostub-$TIER
+  go build -o $ROOT/.bin/gostub-$TIER/go ./cmd/gostub || { echo "build of the go stub failed" >&2; exit 2; }
+  export VERIF_GOSTUB_DIR=$ROOT/.bin/gostub-$TIER
+fi
+if [ "$ID" = "C18" ] || [ "$ID" = "C20" ]; then
   # the same checker under the race detector, for the free-running pass (the cooperative scheduler's hand-offs
   # are happens-before edges, so races are only visible without it)
-  CGO_ENABLED=1 go build -race -tags verif -overlay $GEN/overlay.json -o $BIN-race ./cmd/vcheck || { echo "race build of vcheck failed" >&2; exit 2; }
-  export VERIF_RACE_BIN=$BIN-race
+  if CGO_ENABLED=1 go build -race -tags verif -overlay $GEN/overlay.json -o $BIN-race ./cmd/vcheck; then
+    export VERIF_RACE_BIN=$BIN-race
+  else
+    echo "race build of vcheck failed: stage C (race detector) is skipped and reported as a cap" >&2
+  fi
 fi
 export VERIF_GEN=$GEN
 exec $BIN -tier "$TIER" "$@" "$ID"
